@@ -240,6 +240,10 @@ def generate(tier):
         for names in NAMES:
             if names in ("plain", "dunder"):
                 continue
+            if tier == "thorough":  # every identifier variant on the whole structural product
+                for coef, derived, ia, law in it.product(COEFS, DERIVED, IAS, range(nlaws)):
+                    add(coef, derived, ia, law, names)
+                continue
             for coef, derived, law in it.product(("one", "pname"), DERIVED, (0, 2, 23)):
                 add(coef, derived, "none", law, names)
         return cases
